@@ -3,6 +3,7 @@ real receiver loop (ESME._receive_data + DeliverSm.from_pdu + SimpleCorrelator) 
 PDUs built by the independent reference encoder + direct oracle on the hook log and the written PDUs."""
 import asyncio
 import itertools
+import os
 import struct
 
 from lib import core
@@ -64,19 +65,37 @@ class SteppingClock:
         return self.t
 
 
-async def run_receiver(pdus, gaps=None):
+async def run_receiver(pdus, gaps=None, restart_after=None):
+    """restart_after=k: a persistence directory is configured; after k PDUs the process 'restarts' (a new ESME with a new correlator
+    on the same directory takes the rest)"""
     import aiosmpplib.correlator as cm
     old = cm.time
     cm.time = SteppingClock(gaps) if gaps else old
     try:
-        return await _run_receiver(pdus)
+        if restart_after is None:
+            return await _run_receiver(pdus)
+        import shutil
+        import tempfile
+        d = tempfile.mkdtemp(prefix='c09_', dir='/dev/shm' if os.path.isdir('/dev/shm') else None)
+        try:
+            r1, w1, e1 = await _run_receiver(pdus[:restart_after], directory=d)
+            if e1 is not None:
+                return r1, w1, e1
+            r2, w2, e2 = await _run_receiver(pdus[restart_after:], directory=d)
+            return r1 + r2, w1 + w2, e2
+        finally:
+            shutil.rmtree(d, ignore_errors=True)
     finally:
         cm.time = old
 
 
-async def _run_receiver(pdus):
+async def _run_receiver(pdus, directory=None):
     loop = asyncio.get_running_loop()
-    esme, hook = sess.make_esme()
+    if directory:
+        from aiosmpplib.correlator import SimpleCorrelator
+        esme, hook = sess.make_esme(correlator=SimpleCorrelator('c09', directory=directory))
+    else:
+        esme, hook = sess.make_esme()
     reader, writer, tr, _p = sess.make_stream(loop)
     esme._reader = reader
     esme._writer = writer
@@ -114,10 +133,11 @@ def gen_family(rng, thorough):
         parts = []
         for s in range(n):
             L = rng.choice([1, 2, 5])
+            # some segments end in a character whose last octet is 0x00: '@' in the GSM alphabet, U+4E00 / U+0100 / U+1F600 in UCS2
             if dc == 0:
-                parts.append(''.join(rng.choice('abc€{xyz0') for _ in range(L)) + f'#{s + 1};')
+                parts.append(''.join(rng.choice('abc€{xyz0') for _ in range(L)) + f'#{s + 1}' + rng.choice([';', ';', '@', '@@']))
             else:
-                parts.append(''.join(rng.choice(['ы', '😀', '你', 'a', '𝄞']) for _ in range(L)) + f'#{s + 1};')
+                parts.append(''.join(rng.choice(['ы', '😀', '你', 'a', '𝄞']) for _ in range(L)) + f'#{s + 1}' + rng.choice([';', ';', '\u4e00', '\u0100', '\U0001F600']))
         msgs.append({'method': method, 'ref': ref, 'dc': dc, 'parts': parts, 'payload': rng.random() < 0.3})
     # arrival order: independent permutations, interleaved at random
     queues = []
@@ -142,14 +162,14 @@ def gen_gaps(rng):
     return [rng.choice([0.0, 0.0, 0.25, 1.0, 16.0, 20.0, 600.0, 3600.0]) for _ in range(rng.randint(3, 17))]
 
 
-def check_family(ctx, msgs, arrivals, cases, gaps=None):
+def check_family(ctx, msgs, arrivals, cases, gaps=None, restart_after=None):
     pdus = []
     model_arr = []
     for i, (mi, s) in enumerate(arrivals):
         m = msgs[mi]
         pdus.append(build_segment(m['method'], m['ref'], s + 1, len(m['parts']), m['parts'][s], m['dc'], 1000 + i, m['payload']))
         model_arr.append(f'({m["ref"]}, {s + 1}, {len(m["parts"])}, {core.cstr(m["parts"][s])})')
-    received, written, err = asyncio.run(run_receiver(pdus, gaps))
+    received, written, err = asyncio.run(run_receiver(pdus, gaps, restart_after))
     ctx.traces += 1
     obs = []
     for m_, _p in received:
@@ -201,12 +221,16 @@ def run(ctx):
         msgs, arrivals = gen_family(rng, ctx.thorough)
         gaps = gen_gaps(rng)
         ctx.count('with_time_passing' if gaps else 'clock_untouched')
-        msg = check_family(ctx, msgs, arrivals, cases, gaps)
+        # one family in five with a persistence directory and a restart of the process somewhere in the stream
+        restart_after = rng.randint(1, len(arrivals) - 1) if len(arrivals) > 1 and rng.random() < 0.2 else None
+        if restart_after is not None:
+            ctx.count('with_restart_on_persisted_store')
+        msg = check_family(ctx, msgs, arrivals, cases, gaps, restart_after)
         ctx.case(('family', i, repr(arrivals), repr([(m['method'], m['ref'], m['dc']) for m in msgs])), nontrivial=len(arrivals) > 2)
         for m in msgs:
             ctx.count('method_' + m['method'])
         if msg:
-            ctx.violation(msg, {'function': 'family', 'messages': msgs, 'arrivals': arrivals, 'clock_gaps': gaps})
+            ctx.violation(msg, {'function': 'family', 'messages': msgs, 'arrivals': arrivals, 'clock_gaps': gaps, 'restart_after': restart_after})
         if i < 1:
             ctx.sample({'messages': [{k: (v if k != 'parts' else v[:3]) for k, v in m.items()} for m in msgs], 'arrivals': arrivals[:12]})
     # exhaustive permutations for small counts
@@ -242,7 +266,7 @@ def replay(ctx, path):
         r = json.load(f)
     if r.get('function') != 'family':
         return 0
-    msg = check_family(ctx, r['messages'], [tuple(a) for a in r['arrivals']], [], r.get('clock_gaps'))
+    msg = check_family(ctx, r['messages'], [tuple(a) for a in r['arrivals']], [], r.get('clock_gaps'), r.get('restart_after'))
     print('replay:', msg or 'property holds on this input')
     if msg:
         print(f'VIOLATION property=C09 replay={path}')
